@@ -145,7 +145,7 @@ func (w *World) Explore(spec RunSpec, known map[string]bool, workers int, seed i
 												inconcl = fmt.Sprint("while recording budget: ", r2)
 											}
 										}()
-										x.violation("budget", "unwinding assertion: "+e.why, "")
+										x.violation("budget", "unwinding assertion: "+strings.SplitN(e.why, " at ", 2)[0], e.why)
 									}()
 								} else {
 									outcome = "inconclusive"
